@@ -1451,7 +1451,11 @@ func main() {
 			inner = nil
 		}
 		comp := compressWith(1, inner)
-		set := ask(o, fmt.Sprintf("encset m:1:11:1:1600000000001:%s:%s", os.Args[2], wb(comp)))
+		val := wb(comp)
+		if len(os.Args) > 3 && os.Args[3] == "nullvalue" {
+			val = "nil"
+		}
+		set := ask(o, fmt.Sprintf("encset m:1:11:1:1600000000001:%s:%s", os.Args[2], val))
 		fmt.Println("client:", canonList(fetchClient(set, 10)))
 		fmt.Println("conn:  ", canonList(fetchConn(set, 10, 12, 5)))
 		return
